@@ -13,7 +13,7 @@ import (
 // Sge.Gen.Handlers: every method of every `msgServer` type of the custom modules with its request type,
 // whether the request carries a Ticket, and the effect paths (effects.go).
 
-var atomCtor = map[byte]string{'v': ".verify", 'k': ".kyc", 'w': ".write", 's': ".send", 'a': ".authz", 'e': ".ext"}
+var atomCtor = map[byte]string{'v': ".verify", 'x': ".reject", 'k': ".kyc", 'w': ".write", 's': ".send", 'a': ".authz", 'e': ".ext"}
 
 // ticketPath finds a string field named Ticket in a request struct, directly or inside (pointers to)
 // nested message structs (`Props.Ticket`, `Msg.Ticket`); "" when there is none.
@@ -47,7 +47,7 @@ func genHandlers(w *World) string {
 	var sb strings.Builder
 	sb.WriteString(header("Sge.Gen.Handlers", "Message handlers of the custom modules with their effect paths (C06). Atom semantics: extract/effects.go."))
 	sb.WriteString(`inductive Atom where
-  | verify | kyc | write | send | authz | ext
+  | verify | reject | kyc | write | send | authz | ext
 deriving DecidableEq, Repr
 
 structure Site where
